@@ -308,8 +308,8 @@ func intp(i int) *int { return &i }
 func envStdMap() interface{} {
 	return map[string]interface{}{
 		"n": 42, "x": 2.5, "s": "héllo", "b": true,
-		"l":  []int{3, 1, 2, 3},
-		"ls": []string{"a", "b", "a"},
+		"l":  []int{3, 1, 3, 2},
+		"ls": []string{"a", "b", "a", "c"},
 		"m":  map[string]int{"k1": 1, "k2": 2, "k3": 3, "k4": 4},
 		"mi": map[int]string{1: "one", 2: "two", 3: "three"},
 		"o":  Inner{7, "seven", []string{"x", "y"}},
@@ -326,7 +326,7 @@ func nil2() []string { return []string{} }
 func envStdStruct() interface{} {
 	return &EnvStruct{
 		N: 42, X: 2.5, S: "héllo", B: true,
-		L: []int{3, 1, 2, 3}, Ls: []string{"a", "b", "a"},
+		L: []int{3, 1, 3, 2}, Ls: []string{"a", "b", "a", "c"},
 		M:  map[string]int{"k1": 1, "k2": 2, "k3": 3, "k4": 4},
 		Mi: map[int]string{1: "one", 2: "two", 3: "three"},
 		O:  Inner{7, "seven", []string{"x", "y"}},
@@ -378,7 +378,7 @@ func strp(s string) *string { return &s }
 func envAltStruct() interface{} {
 	return &EnvStruct2{
 		N: "forty", X: "two", S: 7, B: true,
-		L: []string{"c", "a", "b", "c"}, Ls: []int{1, 2, 1},
+		L: []string{"c", "a", "c", "b"}, Ls: []int{1, 2, 1, 3},
 		M:  map[string]string{"k1": "a", "k2": "b", "k3": "c", "k4": "d"},
 		Mi: map[int]int{1: 10, 2: 20, 3: 30},
 		O:  Inner2{"seven", 7, []int{1, 2}},
@@ -398,7 +398,31 @@ func envAltMap() interface{} {
 	}
 }
 
+// "hetero" environments: host containers whose Go element type is concrete but whose
+// entries convert to DIFFERENT yae types (interface-typed parts deeper down, nil-able
+// pointer fields): conversion must fail, whichever entry map iteration visits first.
+type HUser struct {
+	Name   string
+	Avatar *string
+}
+
+func envHetero1() interface{} {
+	return map[string]interface{}{
+		"n":  1,
+		"hm": map[string][]interface{}{"a": {1, 2}, "b": {"x"}, "c": {3}, "d": {"y", "z"}},
+	}
+}
+
+func envHetero2() interface{} {
+	return map[string]interface{}{
+		"n":  1,
+		"hu": map[string]*HUser{"p": {"p", strp("a")}, "q": {"q", nil}, "r": {"r", strp("b")}, "s": {"s", nil}},
+	}
+}
+
 var envMakers = map[string]func() interface{}{
+	"hetero1":   envHetero1,
+	"hetero2":   envHetero2,
 	"alt":       envAltMap,
 	"altstruct": envAltStruct,
 	"none":   func() interface{} { return nil },
